@@ -11,6 +11,7 @@ Decided (DESIGN.md §C12): the explicit integrator Phreeqc::rk_kinetics is a *co
   C12.lowexit   the early exits (-runge_kutta 1/2/3, taken only when all stage rates are equal) use weights summing to 1
   C12.partialstep  blocks that shorten the step before the early-exit tests also clear equal_rate (else a one-step exit
                 integrates only part of the interval)
+  C12.errmax    the step-acceptance error is the running maximum over all reactants (reset before, max-update inside the loop)
   C12.cvode     CVODE restart loop: elapsed time and restored state come from the same checkpoint (cvode_last_good_*), the
                 remaining time is tout - sum_t (one structural clause of the stiff-integrator path; the rest of it is undecided)
   C12.transfer  calc_final_kinetic_reaction transfers to the system exactly what the reactant gives up: coef is read after the
@@ -605,6 +606,73 @@ def run(P, R, tier):
     step_rule(P, R, f, cfg, where)
     transfer_rule(P, R)
     cvode_restart_rule(P, R)
+    errmax_rule(P, R)
+
+
+def errmax_rule(P, R):
+    """Step acceptance of rk_kinetics: error_max, the quantity compared with 1 to reject the step and used to size the next
+    one, is the MAXIMUM over all reactants of the tolerance-scaled error estimate.  Structurally: it is reset before the loop
+    over the reactants and every write inside a loop is a running maximum (guarded by `<new> > error_max`, or max(...));
+    a plain assignment inside the loop keeps only the last reactant's error, so a stiff reactant listed earlier is ignored."""
+    R.rule("C12.errmax", "the step-acceptance error of rk_kinetics is a running maximum over the reactants", minimum=2)
+    f = P.one("Phreeqc::rk_kinetics")
+    where = dict(file=f["file"], function=f["q"])
+    found = [0, 0]
+
+    def is_em(n):
+        n = T.strip_casts(n)
+        return T.is_node(n) and n[0] == "Ref" and n[3] == "error_max"
+
+    def rec(n, loops, guards):
+        if not T.is_node(n):
+            return
+        if n[0] in ("For", "While", "Do"):
+            for c in T.children(n):
+                rec(c, loops + [n], guards)
+            return
+        if n[0] == "If":
+            rec(n[2], loops, guards)
+            rec(n[3], loops, guards + [n[2]])
+            rec(n[4], loops, guards)
+            return
+        if n[0] == "Bin" and n[2] in T.ASSIGN_OPS and is_em(n[3]):
+            # the innermost loop that iterates over the reactants contains the l_error computation
+            # the reactant loop = innermost loop around an assignment to l_error
+            def assigns_lerr(lp):
+                return any(y[0] == "Bin" and y[2] in T.ASSIGN_OPS and T.strip_casts(y[3])[0] == "Ref" and T.strip_casts(y[3])[3] == "l_error" for y in T.walk(lp))
+            inner = [lp for i_, lp in enumerate(loops) if assigns_lerr(lp) and not any(assigns_lerr(l2) for l2 in T.walk(lp[-1]) if l2 is not lp and l2[0] in ("For", "While", "Do"))]
+            if not inner:
+                if T.lit_value(n[4]) == 0 or T.text(n[4]) in ("0.", "0.0", "0"):
+                    found[0] += 1
+                    R.ok("C12.errmax", "reset@%d" % n[1], "error_max reset before the reactant loop")
+                return
+            found[1] += 1
+            inst = "update@%d" % n[1]
+            val = T.text(n[4])
+            guarded = any(g[0] == "Bin" and g[2] in (">", ">=") and is_em(g[4]) and T.text(g[3]) == val for g in [T.strip_casts(x) for x in guards]) or \
+                      any(g[0] == "Bin" and g[2] in ("<", "<=") and is_em(g[3]) and T.text(g[4]) == val for g in [T.strip_casts(x) for x in guards])
+            viamax = any(T.callee_name(c) in ("max", "fmax", "MAX") and any(is_em(a) for a in c[4]) for c in T.calls(n[4]))
+            rv = T.strip_casts(n[4])
+            viacond = False
+            if T.is_node(rv) and rv[0] == "Cond":
+                cc, a_, b_ = T.strip_casts(rv[2]), rv[3], rv[4]
+                if cc[0] == "Bin" and cc[2] in (">", ">=") and is_em(cc[4]) and T.text(cc[3]) == T.text(a_) and is_em(b_):
+                    viacond = True
+                if cc[0] == "Bin" and cc[2] in ("<", "<=") and is_em(cc[3]) and T.text(cc[4]) == T.text(a_) and is_em(b_):
+                    viacond = True
+                if cc[0] == "Bin" and cc[2] in (">", ">=") and is_em(cc[3]) and is_em(a_) and T.text(cc[4]) == T.text(b_):
+                    viacond = True
+            if n[2] == "=" and (guarded or viamax or viacond):
+                R.ok("C12.errmax", inst, "running maximum")
+            else:
+                R.violation("C12.errmax", inst, "error_max is overwritten inside the loop over the reactants (`error_max %s %s`) instead of kept as a running maximum: the step "
+                            "is accepted on the last reactant's error alone" % (n[2], val[:60]), line=n[1], **where)
+            return
+        for c in T.children(n):
+            rec(c, loops, guards)
+    rec(f["body"], [], [])
+    if not found[0] or not found[1]:
+        R.anchor_missing("C12.errmax", "rk_kinetics: reset (%d) / in-loop update (%d) of error_max not found" % tuple(found))
 
 
 def cvode_restart_rule(P, R):
